@@ -60,17 +60,17 @@ type c19sum struct {
 }
 
 type c19vio struct {
-	Violation string  `json:"violation"`
-	Phase     string  `json:"phase"` // "" = sequence tree / periodic run, "drained" = drained-bucket part
-	Detail    string  `json:"detail"`
-	Rate      uint64  `json:"rate_bps"`
-	Burst     uint32  `json:"burst"`
-	Gap       uint64  `json:"gap_ns"`
-	Size      uint32  `json:"size"`
-	Packets   uint64  `json:"packets"`
-	Admitted  uint64  `json:"admitted_bytes"`
-	Ideal     uint64  `json:"ideal_bytes"`
-	Seq       [][]any `json:"seq"`
+	Violation string          `json:"violation"`
+	Phase     string          `json:"phase"` // "" = sequence tree / periodic run, "drained" = drained-bucket part
+	Detail    string          `json:"detail"`
+	Rate      uint64          `json:"rate_bps"`
+	Burst     uint32          `json:"burst"`
+	Gap       uint64          `json:"gap_ns"`
+	Size      uint32          `json:"size"`
+	Packets   uint64          `json:"packets"`
+	Admitted  uint64          `json:"admitted_bytes"`
+	Ideal     uint64          `json:"ideal_bytes"`
+	Seq       [][]json.Number `json:"seq"` // numbers kept as written: time stamps do not fit a float64
 }
 
 func classify(v *report.Violation, x c19vio) {
@@ -266,6 +266,9 @@ func TestCheck(t *testing.T) {
 					Detail: fmt.Sprintf("%s: rate=%d bit/s burst=%d origin=%d gap=%dns size=%d packets=%d admitted=%dB exact-bucket=%dB", x.Detail, x.Rate, x.Burst, j.c.origin, x.Gap, x.Size, x.Packets, x.Admitted, x.Ideal),
 					Trace:  []string{fmt.Sprint(x.Seq)},
 					Extra:  map[string]any{"depth": depth, "periodic": periodic, "origin": fmt.Sprint(j.c.origin), "hex": j.hex, "dir": j.c.dir, "bdepth": bdepth}}
+				if x.Phase != "" { // a sequence witness, not a periodic run: show the sequence instead of the periodic-run fields
+					v.Detail = fmt.Sprintf("%s: rate=%d bit/s burst=%d origin=%d seq[time ns, bytes, 1 admitted/0 dropped/2 greedy back-to-back burst, total admitted]=%v", x.Detail, x.Rate, x.Burst, j.c.origin, x.Seq)
+				}
 				classify(&v, x)
 				run.Violation(v)
 			}
@@ -281,7 +284,7 @@ func TestCheck(t *testing.T) {
 		}
 	}
 	run.AddPart(report.Part{Name: "drained-bucket refill ladder + boundary tree", Engine: "C:native-dfs",
-		Bound:  fmt.Sprintf("start: bucket emptied by a greedy back-to-back burst; ladder depth 1 over <=%d gaps x 4 sizes; boundary tree depth=%d over <=%d gaps x 4 sizes; bounded greedy probe burst (<=32 x 65535 B, then 1500/64/34 B until dropped) after every node; %d distinct configurations with a rate limit", ladderMax, bdepth, boundMax, limited),
+		Bound:  fmt.Sprintf("start: bucket emptied by a greedy back-to-back burst; ladder depth 1 over <=%d gaps x 4 sizes; boundary tree depth=%d over <=%d gaps x 4 sizes; bounded greedy probe burst (<=16 x 65535 B, then 1500/64/34 B until dropped) after every node; %d distinct configurations with a rate limit", ladderMax, bdepth, boundMax, limited),
 		States: dnodes, Transitions: dnodes + probeSteps + drainSteps, Outcomes: 2, Exhaustive: true,
 		Note: fmt.Sprintf("admitted=%d dropped=%d probes=%d (of which %d reached the probe cap) probe-packets=%d drain-packets=%d", dadm, ddrop, probes, probeCapped, probeSteps, drainSteps)})
 	run.AddPart(report.Part{Name: "saturating periodic arrivals", Engine: "C:native", Bound: fmt.Sprintf("%s packets per run", periodic), Executions: pruns, Exhaustive: true})
@@ -322,10 +325,21 @@ func replay(bin string, run *report.Run, k *nativebpf.Kernel) int {
 		fmt.Println("HARNESS-ERROR", err)
 		return 2
 	}
+	// the job is re-run as a whole; only what the file recorded counts (same kind, same part of the enumeration) —
+	// a periodic-run finding of the same configuration is not a reproduction of a sequence witness and vice versa
+	n := 0
 	for _, x := range vs {
+		wantPart := "bucket["
+		if x.Phase != "" {
+			wantPart = "bucket-" + x.Phase + "["
+		}
+		if x.Violation != v.Kind || !strings.HasPrefix(v.Part, wantPart) {
+			continue
+		}
+		n++
 		fmt.Printf("VIOLATION property=C19 replay=%s\n  %s %s rate=%d burst=%d gap=%d size=%d seq=%v\n", *report.FlagReplay, x.Violation, x.Detail, x.Rate, x.Burst, x.Gap, x.Size, x.Seq)
 	}
-	if len(vs) > 0 {
+	if n > 0 {
 		return 1
 	}
 	fmt.Println("replay: no violation")
